@@ -41,7 +41,9 @@ META = {
             'modes are run; a crash drops all later operations; no reordering of rename vs data as a real disk '
             'without fsync could do); datatypes '
             'validate(import_value(x)) as the oracle for "entry is usable" (C01/C02 territory); I/O errors while '
-            '*reading* at start-up and concurrent saves from several threads are outside the alphabet.',
+            '*reading* at start-up are outside the alphabet; concurrent saves: 2-3 threads, <= 2 preemptions (DFS) '
+            'plus random schedules, file-system calls and lock operations as scheduling points (no fault injection '
+            'combined with concurrency).',
     'tech': 'TLA+ spec (Persistent.tla) + TLC model checking; spec->code replay of all TLC behaviours with fault '
             'injection; code->spec TLC trace validation (Trace_Persistent) incl. corruption sweeps',
     'ref': 'DESIGN.md section 5 C17',
@@ -77,6 +79,7 @@ class FakeFS:
         self.observer = None     # called after every op: observer(event)
         self.fired = []
         self.fdcount = 100
+        self.hook = None         # hook(phase, kind, path): 'pre' before / 'post' after every call (scheduling points)
         self.buffered = False    # True: written data reaches the disk only at flush()/close() (lost in a crash)
         self.handles = {}        # path -> open writable handles (they follow the file when it is renamed)
 
@@ -97,6 +100,8 @@ class FakeFS:
         idx = self.n
         self.n += 1
         ev = {'i': idx, 'op': kind, 'name': path}
+        if self.hook:
+            self.hook('pre', kind, path, ev)
         if self.dead:
             # nothing reaches the disk any more; keep unwinding
             ev['outcome'] = 'dropped'
@@ -128,6 +133,8 @@ class FakeFS:
         self.window.append(ev)
         if self.observer:
             self.observer(ev)
+        if self.hook:
+            self.hook('post', ev['op'], ev['name'], ev)
 
     # -- primitive semantics (no events)
     def _isdir(self, p):
@@ -1893,6 +1900,11 @@ def run(chk):
     t0 = _t.time()
     _validate(chk, items)
     chk.notes['phase_s']['trace_validation'] = round(_t.time() - t0, 1)
+    # 4 concurrent saves of one module under the deterministic scheduler (PersistentConc)
+    t0 = _t.time()
+    from . import c17_conc
+    c17_conc.add(chk)
+    chk.notes['phase_s']['concurrent'] = round(_t.time() - t0, 1)
     chk.sample({'trace_prefix': tlc_view(items[-1]['trace'])[:3]})
     chk.exhaustive = False
 
@@ -1900,6 +1912,9 @@ def run(chk):
 def replay(chk, rep):
     d = rep['detail']
     boot()
+    if d.get('kind') == 'conc':
+        from . import c17_conc
+        return c17_conc.replay(chk, rep)
     if d.get('kind') == 'gen':
         plans = {int(k): {int(i): x for i, x in v.items()} for k, v in d['plans'].items()}
         rp, obs, wins, outs = run_actions(d['actions'], tuple(d['types']), d['variant'], plans)
